@@ -31,6 +31,17 @@ static const char* PROG =
 "function idf(&x) { return x \"!\"; }\n"
 "function doop(op,   c, x, y, j, k) {\n"
 "  if (op == \"setnfv\") { k = argw(1); if (k == \"s\") NF = arg(2); else if (k == \"f\") NF = argf(2); else NF = neverset; return \"\"; }\n"
+"  if (op == \"ofsv\") { OFS = argv(2, argw(1)); return \"\"; }\n"
+"  if (op == \"fsv\") { FS = argv(2, argw(1)); return \"\"; }\n"
+"  if (op == \"ic\") { IGNORECASE = argn(1); return \"\"; }\n"
+"  if (op == \"convfmt\") { CONVFMT = arg(1); return \"\"; }\n"
+"  if (op == \"setfnum\") { $(argn(1)) = argf(2); return \"\"; }\n"
+"  if (op == \"mapto\") { amap[1] = 1; k = argw(1); if (k == \"ofs\") OFS = amap; else if (k == \"fs\") FS = amap; else NF = amap; return \"\"; }\n"
+"  if (op == \"fsbad\") { FS = arg(1); return \"\"; }\n"
+"  if (op == \"getlinef\") { c = (getline $(argn(1))); return \" c=\" c; }\n"
+"  if (op == \"apiself0\") { apiself0(); return \"\"; }\n"
+"  if (op == \"subf\") { c = sub(arg(2), arg(3), $(argn(1))); return \" c=\" c; }\n"
+"  if (op == \"gsubf\") { c = gsub(arg(2), arg(3), $(argn(1))); return \" c=\" c; }\n"
 "  if (op == \"incnf\") { ++NF; return \"\"; }\n"
 "  if (op == \"decnf\") { --NF; return \"\"; }\n"
 "  if (op == \"postinc\") { c = NF++; return \" c=\" c; }\n"
@@ -173,9 +184,8 @@ static char* full_state (hawk_rtx_t* rtx, char* o)
 		bits[i] = hawk_rtx_valtobool(rtx, (hawk_val_t*)&refv)? '1': '0'; /* val_ref_to_bool */
 	}
 	bits[n + 2] = '\0';
+	/* the separator in force: the text kept in rtx->gbl.ofs (print joins with it) */
 	o += sprintf(o, " B=%s ofs=", bits);
-	o = esc_val(rtx, o, hawk_rtx_getgbl(rtx, HAWK_GBL_OFS));
-	*o++ = '/';
 	o = esc_into(o, rtx->gbl.ofs.ptr, rtx->gbl.ofs.len);
 	*o = '\0';
 	return o;
@@ -234,6 +244,7 @@ static int fnc_nextop (hawk_rtx_t* rtx, const hawk_fnc_info_t* fi)
 	else
 	{
 		if ((strcmp(W[0], "getline") == 0 || strcmp(W[0], "next") == 0 || strcmp(W[0], "getlinenf") == 0) && NW >= 2) push_console (W[1]);
+		if (strcmp(W[0], "getlinef") == 0 && NW >= 3) push_console (W[2]);
 		v = hawk_rtx_makestrvalwithbchars(rtx, W[0], strlen(W[0]));
 	}
 	if (!v) return -1;
@@ -289,6 +300,42 @@ static int fnc_argf (hawk_rtx_t* rtx, const hawk_fnc_info_t* fi)
 	v = hawk_rtx_makefltval(rtx, (hawk_flt_t)strtod((char*)tmp, NULL));
 	if (!v) return -1;
 	hawk_rtx_setretval (rtx, v);
+	return 0;
+}
+
+/* argv(k, kind): the k-th word (hex text) as a value of the given kind:
+ * n nil, i integer, f floating-point, b byte string, c character, anything else a string */
+static int fnc_argv (hawk_rtx_t* rtx, const hawk_fnc_info_t* fi)
+{
+	static unsigned char tmp[1 << 12];
+	int k = get_k(rtx);
+	size_t n = (k >= 0 && k < NW && strlen(W[k]) < sizeof(tmp))? unhex(W[k], tmp): 0;
+	hawk_oow_t kl;
+	hawk_bch_t* kind = hawk_rtx_valtobcstrdup(rtx, hawk_rtx_getarg(rtx, 1), &kl);
+	hawk_val_t* v;
+	tmp[n] = '\0';
+	if (!kind) return -1;
+	switch (kind[0])
+	{
+		case 'n': v = hawk_val_nil; break;
+		case 'i': v = hawk_rtx_makeintval(rtx, (hawk_int_t)strtoll((char*)tmp, NULL, 10)); break;
+		case 'f': v = hawk_rtx_makefltval(rtx, (hawk_flt_t)strtod((char*)tmp, NULL)); break;
+		case 'b': v = hawk_rtx_makembsvalwithbchars(rtx, (const hawk_bch_t*)tmp, n); break;
+		case 'c': v = hawk_rtx_makecharval(rtx, (hawk_ooch_t)tmp[0]); break;
+		default:  v = hawk_rtx_makestrvalwithbchars(rtx, (const hawk_bch_t*)tmp, n); break;
+	}
+	hawk_rtx_freemem (rtx, kind);
+	if (!v) return -1;
+	hawk_rtx_setretval (rtx, v);
+	return 0;
+}
+
+/* apiself0(): hawk_rtx_setrec(rtx, 0, <inrec.line itself>) - the embedding API's way to have the record
+ * re-split in place (the branch that keeps the line and only clears the fields) */
+static int fnc_apiself0 (hawk_rtx_t* rtx, const hawk_fnc_info_t* fi)
+{
+	if (hawk_rtx_setrec(rtx, 0, HAWK_OOECS_OOCS(&rtx->inrec.line), 0) <= -1) return -1;
+	hawk_rtx_setretval (rtx, hawk_rtx_makeintval(rtx, 0));
 	return 0;
 }
 
@@ -399,6 +446,8 @@ int main (void)
 	add_fnc (hawk, "argn", 1, 1, fnc_argn);
 	add_fnc (hawk, "argw", 1, 1, fnc_argw);
 	add_fnc (hawk, "argf", 1, 1, fnc_argf);
+	add_fnc (hawk, "argv", 2, 2, fnc_argv);
+	add_fnc (hawk, "apiself0", 0, 0, fnc_apiself0);
 	add_fnc (hawk, "esc", 1, 1, fnc_esc);
 	add_fnc (hawk, "snap", 0, 0, fnc_snap);
 	add_fnc (hawk, "spanok", 1, 1, fnc_spanok);
@@ -449,6 +498,8 @@ int main (void)
 			if (en == HAWK_EINVAL) o += sprintf(o, "ERR einval ");
 			else if (en == HAWK_EPOSIDX) o += sprintf(o, "ERR eposidx ");
 			else if (en == HAWK_ENOMEM) o += sprintf(o, "ERR enomem ");
+			else if (en == HAWK_ESCALARTONONSCA) o += sprintf(o, "ERR enonsca ");
+			else if (en >= HAWK_EREXBADPAT && en <= HAWK_EREXBRACE) o += sprintf(o, "ERR erex ");
 			else o += sprintf(o, "ERR e%d ", (int)en);
 			o = full_state(rtx, o);
 			o = lang_state(rtx, o);
